@@ -602,6 +602,10 @@ pub struct RecGas {
     logs: u64,
     selfdestructs: u64,
     nonok_ends: u64,
+    /// test switch (env VERIF_C28_MUTANT, never set by ./check): `revert` makes call_end spend the gas of
+    /// REVERT-class outcomes too, `step` charges 1 gas in every `step` - both are NOT observing and must be
+    /// reported as `differ recgas …`
+    mutant: u8,
 }
 impl RecGas {
     fn note(&mut self, depth: u64, kind: &'static str, r: &InterpreterResult) {
@@ -624,6 +628,9 @@ impl<DB: Database> Inspector<DB> for RecGas {
     }
     fn step(&mut self, interp: &mut Interpreter, context: &mut EvmContext<DB>) {
         self.steps += 1;
+        if self.mutant == 2 {
+            let _ = interp.gas.record_cost(1);
+        }
         self.inner.step(interp, context)
     }
     fn step_end(&mut self, interp: &mut Interpreter, context: &mut EvmContext<DB>) {
@@ -638,7 +645,11 @@ impl<DB: Database> Inspector<DB> for RecGas {
     }
     fn call_end(&mut self, context: &mut EvmContext<DB>, inputs: &CallInputs, outcome: CallOutcome) -> CallOutcome {
         self.note(context.journaled_state.depth(), "call", &outcome.result);
-        self.inner.call_end(context, inputs, outcome)
+        let mut outcome = self.inner.call_end(context, inputs, outcome);
+        if self.mutant == 1 && outcome.result.result.is_revert() {
+            outcome.result.gas.spend_all();
+        }
+        outcome
     }
     fn create(&mut self, context: &mut EvmContext<DB>, inputs: &mut CreateInputs) -> Option<CreateOutcome> {
         self.inner.create(context, inputs)
@@ -733,7 +744,12 @@ fn exec_tx_req(r: &TxReq, rec: &str) -> (String, TxStats) {
         tr = tr.without_summary();
     }
     let (tracer, _) = run_insp(r, tr);
-    let (recd, rg) = run_insp(r, RecGas::default());
+    let mutant = match std::env::var("VERIF_C28_MUTANT").as_deref() {
+        Ok("revert") => 1,
+        Ok("step") => 2,
+        _ => 0,
+    };
+    let (recd, rg) = run_insp(r, RecGas { mutant, ..Default::default() });
     let class = match &plain {
         Err(e) => format!("rejected:{}", e.split(|c: char| !c.is_alphanumeric()).filter(|x| !x.is_empty()).nth(1).unwrap_or("?")),
         Ok(v) => v.0.split(|c: char| !c.is_alphanumeric()).next().unwrap_or("?").to_string(),
